@@ -17,7 +17,6 @@ package ocifilter
 import (
 	"context"
 	"io"
-	"path"
 	"strings"
 
 	"cuelabs.dev/go/oci/ociregistry"
@@ -201,5 +200,7 @@ func (r *subRegistry) repo(name string) string {
 		// empty name.
 		return ""
 	}
-	return path.Join(r.prefix, name)
+	// Note: no path cleaning here, otherwise a name
+	// like "../x" would address a repository outside the prefix.
+	return r.prefix + "/" + name
 }
